@@ -13,11 +13,11 @@ MANIFEST = {
              'every limit >= 0 with 0 = unlimited): C14_ffill_axis1_any_layout / C14_ffill_row_any_partition -- the block-wise axis-1 forward fill '
              'of TypeBlocks._fillna_directional_axis_1 (bridging_values / bridging_count / bridging_isna carried across blocks, whole-block fast '
              'path, limit trimming) equals the two-line per-row specification S_ffill for EVERY block layout, by induction over the block list with '
-             'the invariant "bridging state = S_ffill carry at the block boundary"; C14_bfill_axis1_any_layout_guarded (+ _nolimit, + _repaired) -- the same for the '
-             'backward walk, for BOTH values of the decision "which yielded slice gives the bridging count" that tools/sfv/props/c14.py:generate extracts from the source '
-             'on every run (Gen/Gen_c14.v): unguarded for the repaired decision, under the explicit guard frame_bwd_dom for the pinned one, where unguarded it is FALSE of '
-             'the code (Refuted/C14.v, finding C14-bfill-axis1-bridge-count); C14_dropna_keep_refines -- the keep mask of dropna_to_keep_locations = the lines S keeps '
-             '(guarded for the single-1-D-block frame on axis 1: Refuted/C14.v, finding C14-dropna-axis1-single-1d-block); '
+             'the invariant "bridging state = S_ffill carry at the block boundary"; C14_bfill_axis1_any_layout -- the same for the '
+             'backward walk, UNGUARDED, stated over the decision "which yielded slice gives the bridging count" that tools/sfv/props/c14.py:generate extracts from the '
+             'source on every run (Gen/Gen_c14.v): reverting /repo 690a4f3 flips the decision and breaks the proof obligation (C14_bfill_axis1_any_decision_guarded keeps the '
+             'guarded statement for either decision); C14_dropna_keep_refines -- the keep mask of dropna_to_keep_locations = the lines S keeps, unguarded, over the regenerated '
+             'decision dropna_1d_reshaped (/repo 35bd018; _any_decision_guarded for either); '
              'C14_dir1d_forward / _backward -- binary_transition + slices_from_targets + slice assignment (Series, axis 0) equal S_ffill / S_bfill; '
              'C14_sided_axis1_any_layout, C14_sided1d -- leading/trailing fills (isna_exit_previous across blocks, reversed walk) equal S_leading / S_trailing; '
              'C14_ffill_exact, C14_bfill_exact, C14_decomposition, C14_leading_exact -- S copies exactly the nearest preceding (following) present value into exactly '
@@ -32,11 +32,12 @@ MANIFEST = {
              '(no missing cell in ANY row) is modelled by a per-block flag computed from all rows. Partial: dropna, fillna(labelled container), count, notna have '
              'specification-level checks (impl vs S on every case) and theorems about S, but no separate implementation model; dtype of the result is not compared; '
              'datetime64 units other than D, 0-row / 0-column frames, tuple cells, negative limits and hierarchical labels are outside the checked domain. '
-             'Known findings (3): backward axis-1 fill with limit across a 2-D block; Frame.dropna(axis=1) on a single 1-D block; datetime64[ns] cells turned into ints by fills that coerce to object.'),
+             'Known finding (1): datetime64[ns] cells turned into ints by fills that coerce to object. Repaired and kept as regression inputs: backward axis-1 fill with limit across a 2-D block (690a4f3), Frame.dropna(axis=1) on a single 1-D block (35bd018).'),
     'technique': 'refinement proof M = S by induction over the block list (invariant: bridging state = carry of S); kernel proofs over run/group decomposition; differential correspondence',
 }
 PROPERTY_FILES = ['Properties/C14.v']
-REFUTED_FILES = ['Refuted/C14.v']
+REFUTED_FILES = []
+GENERATED_FILES = ['Gen/Gen_c14.v']
 MODEL_FILES = ['Gen/Gen_c14.v', 'SF/Missing.v', 'SF/MissingCheck.v']
 TRANSLATED = ['DTYPE_INEXACT_KINDS', 'DTYPE_NAT_KINDS']
 IMPORTS = 'Require Import SF.Prelude SF.Value SF.Dtype SF.Missing SF.MissingCheck.'
@@ -219,7 +220,7 @@ def any_missing(mask):
     return any(any(c) for c in mask)
 
 
-# ---------------------------------------------------------------------------------------------- the known finding's input class
+# ---------------------------------------------------------------------------------------------- input class of a repaired finding (kept as regression)
 def in_bfill_class(mask, layout, limit):
     '''Input class of finding C14-bfill-axis1-bridge-count, decided on the INPUT only: backward axis-1 fill with limit > 0 where, in some row,
     a 2-D block starts with a missing cell, has two or more fillable missing runs whose (limit-trimmed) lengths differ between the
@@ -428,8 +429,8 @@ def frame_directional(ctx, kinds, mask, layout, limits, axes=(1,), dirs=(True, F
                 out = frame_cols(fn(limit, axis=axis))
                 ctx.count(f'frame-dir:axis{axis}:{nrows}x{len(kinds)}')
                 tags = {'op': 'directional', 'fwd': fwd, 'axis': axis, 'container': 'Frame'}
-                if axis == 1 and not fwd and not decisions()['bwd_count_from_first'] and in_bfill_class(mask, layout, limit):
-                    tags['finding'] = FINDING_BFILL
+                if axis == 1 and not fwd and in_bfill_class(mask, layout, limit):
+                    tags['regression'] = FINDING_BFILL   # repaired by /repo 690a4f3: the input class stays as a regression
                 if axis == 1:
                     m = f'chk_dir_axis1_M {lit.b(fwd)} {lit.z(limit)} {nat(nrows)} {layout_lit(layout)} {inp} {cols_lit(out)}'
                     s = f'chk_dir_axis1_S {lit.b(fwd)} {lit.z(limit)} {nat(nrows)} {inp} {cols_lit(out)}'
@@ -491,8 +492,8 @@ def frame_simple(ctx, kinds, mask, layout):
             keep = ck if axis == 1 else rk
             single1d = tuple(layout) == ((1, False),)
             ktags = {'kernel': 'dropna_to_keep_locations', 'op': 'dropna', 'axis': axis}
-            if axis == 1 and single1d and not decisions()['dropna_1d_reshaped']:
-                ktags['finding'] = FINDING_DROPNA
+            if axis == 1 and single1d:
+                ktags['regression'] = FINDING_DROPNA   # repaired by /repo 35bd018
             yield Case('kernel:dropna_to_keep_locations',
                        desc_of(kinds, mask, layout, f'f._blocks.dropna_to_keep_locations(axis={axis}, condition=np.{"any" if use_any else "all"})',
                                [bool(x) for x in keep]),
@@ -502,8 +503,8 @@ def frame_simple(ctx, kinds, mask, layout):
                        tags=ktags, nontrivial=nt)
             call = f'f.dropna(axis={axis}, condition=np.{"any" if use_any else "all"})'
             dtags = {'op': 'dropna', 'axis': axis, 'any': use_any, **tag}
-            if axis == 1 and tuple(layout) == ((1, False),) and not decisions()['dropna_1d_reshaped']:
-                dtags['finding'] = FINDING_DROPNA     # input class by construction: one column held as a single 1-D block, axis=1
+            if axis == 1 and tuple(layout) == ((1, False),):
+                dtags['regression'] = FINDING_DROPNA     # input class by construction: one column held as a single 1-D block, axis=1
             try:
                 d = f.dropna(axis=axis, condition=np.any if use_any else np.all)
             except Exception as e:  # noqa
@@ -576,7 +577,7 @@ def frame_cases(ctx):
         # 1 x 5: a seeded sample of (pattern, layout, limit, direction)
         kinds = ['F'] * 5
         lays = layouts(kinds)
-        for _ in range(ctx.n(1000, 0)):
+        for _ in range(ctx.n(600, 0)):
             mask = [[rng.random() < 0.5] for _ in kinds]
             yield from frame_directional(ctx, kinds, mask, rng.choice(lays), (rng.randint(0, 4),), dirs=(rng.random() < 0.5,))
     else:
@@ -594,15 +595,15 @@ def frame_cases(ctx):
     kinds = ['F'] * 3
     for layout in layouts(kinds):
         for mask in masks(2, kinds):
-            yield from frame_directional(ctx, kinds, mask, layout, (0, 1) if quick else (0, 1, 2, 3), axes=(1,))
+            yield from frame_directional(ctx, kinds, mask, layout, (1,) if quick else (0, 1, 2, 3), axes=(1,))
             if not quick:
                 yield from frame_directional(ctx, kinds, mask, layout, (0, 1, 2), axes=(0,))
             yield from frame_sided(ctx, kinds, mask, layout, axes=(1,) if quick else (0, 1))
     if quick:
-        # 2 x 4, every pattern, limit 1, four representative layouts: stale per-row state in a block that takes the slow path
+        # 2 x 4, every pattern, limit 1, two representative layouts: stale per-row state in a block that takes the slow path
         # only because ANOTHER row has a missing cell needs >= 2 rows and >= 4 columns
         kinds = ['F'] * 4
-        for layout in (((1, False),) * 4, ((1, True),) * 4, ((1, False), (2, True), (1, False)), ((2, True), (2, True))):
+        for layout in (((1, False),) * 4, ((1, False), (2, True), (1, False))):
             for mask in masks(2, kinds):
                 yield from frame_directional(ctx, kinds, mask, layout, (1,), axes=(1,))
     if not quick:
@@ -633,13 +634,13 @@ def frame_cases(ctx):
                 if oi and oc:
                     yield from frame_fill_container(ctx, kinds, mask, layout, oi, oc, lambda i, j: (i + j) % 2 == 0)
                     yield from frame_fill_container(ctx, kinds, mask, layout, oi, oc, 'int')
-    # (5) the known finding, witnessed in every run (inputs in its class by construction)
+    # (5) regression: the inputs on which the backward bridging count was wrong before /repo 690a4f3 (spec = the correct behaviour)
     for miss_row, limit in (((True, True, True, False, True, False), 2), ((True, True, False, True, True, False), 2),
                             ((True, True, True, False, True, True, False), 3)):
         kinds = ['F'] * len(miss_row)
         layout = ((1, False), (len(miss_row) - 1, True))
         yield from frame_directional(ctx, kinds, [[m] for m in miss_row], layout, (limit,), dirs=(False,))
-    # (5b) second known finding witnessed in every run: one float column held as a 1-D block, dropna(axis=1)
+    # (5b) regression: one float column held as a 1-D block, dropna(axis=1) raised IndexError before /repo 35bd018
     yield from frame_simple(ctx, ['F'], [[False, True]], ((1, False),))
     yield from frame_simple(ctx, ['F'], [[False, True]], ((1, True),))
     # (6) random stream: bigger mixed frames, random layout, random limit
@@ -693,7 +694,7 @@ def malformed_cases(ctx):
 
 
 def dt64ns_cases(ctx):
-    '''Third known finding, witnessed in every run: a fill that forces a datetime64[ns] array to object dtype (fill / bridging value of another kind)
+    '''The remaining known finding, witnessed in every run: a fill that forces a datetime64[ns] array to object dtype (fill / bridging value of another kind)
     turns the PRESENT datetimes into integers (ndarray.astype(object) on ns resolution).  Input class by construction: datetime64[ns] line with a present
     value and a missing cell, filled with a non-datetime value.'''
     import static_frame as sf
